@@ -112,6 +112,12 @@ func runC12(r *simkit.Run) {
 				}
 			}
 		}
+		if ti != nil && ti.Kind == "checkin-badkey" && ti.Class == "" {
+			if resp.Code == 0 || len(resp.Events) != 0 {
+				r.Fail("malformed-check-in-accepted", "delivertx", "h=%d check-in of %s with a garbage encryption key answered with code %d and %d events", h, ti.Sender.Hex(), resp.Code, len(resp.Events))
+			}
+			r.Probe("malformed-check-ins-refused")
+		}
 		for _, ev := range resp.Events {
 			switch ev.Type {
 			case evtype.BatchConfig:
